@@ -165,7 +165,14 @@ def delete_tables_with_prefix(sqlite_db_path: str | Path, prefix: str) -> None:
             (f"{prefix}%",),
         )
         try:
-            tables = [row[0] for row in cursor.fetchall()]
+            # LIKE is only a coarse filter: "_" is a wildcard, matching ignores case, and
+            # another app's id may itself start with this prefix. Keep exactly the tables
+            # named "<prefix>_<table>" (table suffixes never contain the "__" separator).
+            tables = [
+                row[0]
+                for row in cursor.fetchall()
+                if row[0].startswith(f"{prefix}_") and "__" not in row[0][len(prefix) :]
+            ]
         finally:
             try:
                 cursor.close()
